@@ -273,7 +273,7 @@ Lemma inv1_step : forall K c P s e, 0 < K -> inv1 K c P s -> pre_ev K c e ->
   inv1 K c (fun i b => P i b \/ copied e i b) (step true K s e).
 Proof.
   intros K c P s e HK I He.
-  destruct e as [off data|off data|i bs|k a|k a|rev| | | |]; cbn [pre_ev] in He; try contradiction.
+  destruct e as [off data|off data|i bs|k a|k a|rev| | | | |st rv]; cbn [pre_ev] in He; try contradiction.
   - destruct He as (A & B). apply (inv1_mono K c P); [now apply inv1_write|]. intros i b _ [Hp|[]]. exact Hp.
   - now apply inv1_copy.
   - apply (inv1_mono K c P); [now apply inv1_srchole|]. intros i b _ [Hp|[]]. exact Hp.
@@ -419,7 +419,7 @@ Qed.
 Lemma inv2_step : forall K c s e, 0 < K -> inv2 K c s -> post_ev e -> inv2 K c (step true K s e).
 Proof.
   intros K c s e HK I He.
-  destruct e as [off data|off data|i bs|k a|k a|rev| | | |]; cbn [post_ev] in He; try contradiction.
+  destruct e as [off data|off data|i bs|k a|k a|rev| | | | |st rv]; cbn [post_ev] in He; try contradiction.
   - now apply inv2_write.
   - now apply inv2_srchole.
   - now apply inv2_dsthole.
@@ -496,7 +496,7 @@ Proof.
   assert (Hth : forall k a, nf (fst (take_hole (src s) (spend s) k a)) = nf (src s) /\
                             nblk (fst (take_hole (src s) (spend s) k a)) = nblk (src s)).
   { intros k a. unfold take_hole. destruct (nth_error (spend s) k); [destruct a|]; cbn [fst set_fl nf nblk]; auto. }
-  destruct e as [off data|off data|i bs|k a|k a|rev| | | |]; cbn [step].
+  destruct e as [off data|off data|i bs|k a|k a|rev| | | | |st rv]; cbn [step].
   - destruct (nblk (src s) * K <? off + length data); [auto|].
     destruct (reloaded s).
     + destruct (write_at true K (dst s) data off). cbn [set_dst src]. apply Hw.
@@ -510,6 +510,7 @@ Proof.
   - destruct (uph s); auto. destruct (reloaded s); auto.
   - destruct (uph s) as [|c0|]; auto. destruct (scan_step (dst s) c0); auto.
   - destruct (uph s) as [|c0|]; auto. destruct (scan_done (dst s) c0); auto; try (destruct (ulm_merge (dst s) (pl (sp c0))); auto).
+  - destruct (reloaded s || (st =? 0)); auto.
 Qed.
 
 Lemma run_src_shape : forall K es s, nf (src (run true K s es)) = nf (src s) /\ nblk (src (run true K s es)) = nblk (src s).
@@ -613,15 +614,28 @@ Record cinv1 (K sx : nat) (s0 : dd) (w : bool) (P : nat -> nat -> Prop) (s : rb)
 Definition clone_pre_ev (e : ev) : Prop :=
   match e with SrcWrite _ _ | SrcHole _ _ | Copy _ _ => True | _ => False end.
 
+(** ... and attempts of UpdateCloneInfo that fail: the error is returned, the head is not rewired (the task
+    either stops -- then there is no Reload and nothing is claimed -- or tries again) *)
+Definition clone_try_ev (e : ev) : Prop :=
+  match e with SrcWrite _ _ | SrcHole _ _ | Copy _ _ | CloneInfoFail _ _ => True | _ => False end.
+
+Lemma clone_pre_try : forall e, clone_pre_ev e -> clone_try_ev e.
+Proof. intros e; destruct e; cbn; auto. Qed.
+
 Lemma cinv1_mono : forall K sx s0 w (P Q : nat -> nat -> Prop) s, cinv1 K sx s0 w P s ->
   (forall i b, Q i b -> P i b) -> cinv1 K sx s0 w Q s.
 Proof. intros K sx s0 w P Q s I H. destruct I. constructor; auto. Qed.
 
-Lemma cinv1_step : forall K sx s0 w P s e, 0 < K -> cinv1 K sx s0 w P s -> clone_pre_ev e ->
+Lemma cinv1_step : forall K sx s0 w P s e, 0 < K -> cinv1 K sx s0 w P s -> clone_try_ev e ->
   cinv1 K sx s0 w (fun i b => P i b \/ copied e i b) (step true K s e).
 Proof.
   intros K sx s0 w P s e HK I He.
-  destruct e as [off data|off data|i bs|k a|k a|rev| | | |]; cbn [clone_pre_ev] in He; try contradiction.
+  destruct e as [off data|off data|i bs|k a|k a|rev| | | | |st rv]; cbn [clone_try_ev] in He; try contradiction;
+    [| | |
+     (* a failed UpdateCloneInfo touches the counter at most *)
+     apply (cinv1_mono K sx s0 w P); [|intros i b [Hp|[]]; exact Hp]; cbn [step];
+     destruct (reloaded s || (st =? 0)); [exact I|];
+     destruct I; constructor; cbn [src dst spend dpend lowc wired reloaded uph drev]; auto].
   - (* SrcWrite *)
     apply (cinv1_mono K sx s0 w P); [|intros i b [Hp|[]]; exact Hp]. cbn [step].
     destruct (Nat.ltb_spec (nblk (src s) * K) (off + length data)) as [Hout|Hin]; [exact I|].
@@ -720,7 +734,7 @@ Lemma cinv2_step : forall K sx s0 rev s e, 0 < K -> cinv2 K sx s0 rev s -> clone
   cinv2 K sx s0 rev (step true K s e).
 Proof.
   intros K sx s0 rev s e HK I He.
-  destruct e as [off data|off data|i bs|k a|k a|rv| | | |]; cbn [clone_post_ev] in He; try contradiction.
+  destruct e as [off data|off data|i bs|k a|k a|rv| | | | |st rv0]; cbn [clone_post_ev] in He; try contradiction.
   - (* SrcWrite *)
     cbn [step]. destruct (Nat.ltb_spec (nblk (src s) * K) (off + length data)) as [Hout|Hin]; [exact I|].
     unfold src_write. pose proof (sinv_write K (src s) (spend s) data off HK (c2_src _ _ _ _ _ I) Hin) as HS.
@@ -770,7 +784,7 @@ Proof.
     split; congruence.
 Qed.
 
-Lemma run_cinv1 : forall K sx s0 w es P s, 0 < K -> cinv1 K sx s0 w P s -> Forall clone_pre_ev es ->
+Lemma run_cinv1 : forall K sx s0 w es P s, 0 < K -> cinv1 K sx s0 w P s -> Forall clone_try_ev es ->
   cinv1 K sx s0 w (fun i b => P i b \/ copied_in es i b) (run true K s es).
 Proof.
   intros K sx s0 w. induction es as [|e es IH]; intros P s HK I Hall.
@@ -823,7 +837,7 @@ Record clone_start_ok (K sx : nat) (s : rb) : Prop := {
 
 Theorem clone_image : forall K sx s0 es1 es1' es2 rev, 0 < K ->
   clone_start_ok K sx s0 ->
-  Forall clone_pre_ev es1 -> Forall clone_pre_ev es1' ->
+  Forall clone_try_ev es1 -> Forall clone_pre_ev es1' ->
   (forall i b, 1 <= i <= sx -> b < nblk (src s0) -> copied_in (es1 ++ es1') i b) ->
   Forall clone_post_ev es2 ->
   let s := run true K s0 (es1 ++ CloneInfo rev :: es1' ++ DstReload :: es2) in
@@ -847,7 +861,7 @@ Proof.
   set (s1 := run true K s0 es1) in *.
   destruct (cinv1_info K sx _ _ _ s1 rev I1) as (I2 & Erev).
   set (s2 := step true K s1 (CloneInfo rev)) in *.
-  pose proof (run_cinv1 K sx _ _ es1' _ s2 HK I2 H1') as I3.
+  pose proof (run_cinv1 K sx _ _ es1' _ s2 HK I2 (Forall_impl _ clone_pre_try H1')) as I3.
   set (s3 := run true K s2 es1') in *.
   assert (Edrev : drev s3 = rev).
   { unfold s3. rewrite (run_pre_drev K es1' s2 H1'). exact Erev. }
@@ -877,7 +891,7 @@ Qed.
 Definition rmw_case : rcase :=
   mkrcase 8 8 false false [Write 0 (repeat 1%N 32)] None [] 0%N
           [MBoth 17 (repeat 3%N 2); MCopy 1; MReload; MUlm []]
-          [] (mkrside 0 0 [] [] [] [] 0) (mkrside 0 0 [] [] [] [] 0) 0%N 0%N.
+          [] (mkrside 0 0 [] [] [] [] 0) (mkrside 0 0 [] [] [] [] 0) true 0%N 0%N.
 
 Theorem rebuild_unaligned_refuted :
   let s := fst (exec true 8 (init_case true rmw_case) (rc_ev rmw_case)) in
@@ -896,7 +910,7 @@ Proof. vm_compute. repeat split; reflexivity. Qed.
 Definition diverged_case : rcase :=
   mkrcase 8 4 false false [Write 8 (repeat 2%N 8); Snap 2%N false] (Some 2) [Write 8 (repeat 6%N 8)] 0%N
           [MCopy 2; MReload; MUlm []]
-          [] (mkrside 0 0 [] [] [] [] 0) (mkrside 0 0 [] [] [] [] 0) 0%N 0%N.
+          [] (mkrside 0 0 [] [] [] [] 0) (mkrside 0 0 [] [] [] [] 0) true 0%N 0%N.
 
 Theorem rebuild_diverged_refuted :
   let s0 := init_case true diverged_case in
@@ -913,13 +927,13 @@ Proof. vm_compute. repeat split; reflexivity. Qed.
 Example rmw_case_aligned_ok :
   model_oracle true (mkrcase 8 8 false false [Write 0 (repeat 1%N 32)] None [] 0%N
                              [MBoth 16 (repeat 3%N 8); MCopy 1; MReload; MUlm []]
-                             [] (mkrside 0 0 [] [] [] [] 0) (mkrside 0 0 [] [] [] [] 0) 0%N 0%N) = true.
+                             [] (mkrside 0 0 [] [] [] [] 0) (mkrside 0 0 [] [] [] [] 0) true 0%N 0%N) = true.
 Proof. vm_compute. reflexivity. Qed.
 
 Example diverged_case_in_sync_ok :
   model_oracle true (mkrcase 8 4 false false [Write 8 (repeat 2%N 8); Snap 2%N false] (Some 2) [] 0%N
                              [MCopy 2; MReload; MUlm []]
-                             [] (mkrside 0 0 [] [] [] [] 0) (mkrside 0 0 [] [] [] [] 0) 0%N 0%N) = true.
+                             [] (mkrside 0 0 [] [] [] [] 0) (mkrside 0 0 [] [] [] [] 0) true 0%N 0%N) = true.
 Proof. vm_compute. reflexivity. Qed.
 
 (** ** the hypotheses are satisfiable: a new (empty) replica is added to any source *)
